@@ -281,6 +281,54 @@ def run(chk, prog):
     if not ok:
         chk.finding("ONE", "listeners", "target-before-enqueue", "", "src/listeners", d)
 
+    # ------------------------------------------------------------------ ID: the destination reaches the wire untransformed
+    # In every address encoder the bytes written derive from the target's own fields through pure accessors only; a *local*
+    # helper that rewrites the address on the way (mapping, normalising, defaulting) means the next hop is asked for a
+    # destination the rules were not evaluated on.
+    PURE_LOCAL = re.compile(r"context::TargetAddress::(host|port|r#type|is_encodable)$|core::fmt::Display>::fmt$|core::clone::Clone>::clone$|"
+                            r"core::fmt::Debug>::fmt$|TargetAddress as core::cmp::PartialEq>::eq$")
+    enc = []
+    for pat in (r"^common::socks::SocksRequest::<T>::write_v[45]$", r"^common::socks::SocksResponse::write_v[45]$",
+                r"^common::socks::frames::encode_socks_frame$", r"^common::frames::encode_address$"):
+        enc += [prog.body_of(f) for f in prog.find(pat, "redproxy_rs")]
+    chk.floor("ID", len(enc), 6, "address encoder functions")
+    for f in enc:
+        seeds = set()
+        for b in f.reachable:
+            for st in f.stmts(b):
+                if st["k"] != "assign" or len(st["lhs"]) != 1:
+                    continue
+                rv = st["rv"]
+                ps = []
+                if rv["k"] == "ref":
+                    ps.append(rv["p"])
+                for o in __import__("engine.mir", fromlist=["rv_operands"]).rv_operands(rv):
+                    p = op_place(o)
+                    if p:
+                        ps.append(p)
+                for p in ps:
+                    if any(x in ("d:SocketAddr", "d:DomainPort") for x in p[1:]) or "f:target" in p[1:] or "f:addr" in p[1:]:
+                        seeds.add(st["lhs"][0])
+        # parameters of type &TargetAddress / Option<&TargetAddress>
+        for i in range(1, f.arg_count + 1):
+            if "TargetAddress" in f.local_ty_s(i):
+                seeds.add(i)
+        from ..flow import flow_forward
+        tracked, cons = flow_forward(f, seeds, [r"^core::", r"^alloc::", r"^std::", r"^bytes::", r"^tokio::", r"^easy_error::"])
+        bad = []
+        for kind, b, info, l in cons:
+            if kind == "call":
+                lk = info.local_key()
+                if lk and not PURE_LOCAL.search(info.name or ""):
+                    bad.append(info)
+        ok = not bad
+        chk.instance("ID", "%s:%s" % (f.file, f.line), "%s writes the target's own fields (no local transformation on the way)" % f.path, ok,
+                     "" if ok else "passes through %s" % [short(c.name) for c in bad])
+        for c in bad:
+            chk.finding("ID", f.key, short(c.name), "", c.where(),
+                        "%s passes the destination through %s before encoding it: the next hop can be asked for an address that differs from the "
+                        "one the client requested and the rules were evaluated on" % (f.path, short(c.name)))
+
     # ------------------------------------------------------------------ W1 on the encoders
     shared.rule_w1(chk, prog, ["src/common/http.rs", "src/common/socks.rs", "src/common/frames.rs"], rule="W1")
 
